@@ -1147,6 +1147,9 @@ class SmiV2Parser(AbstractParser):
             raise error.PySmiParserError("Bad grammar near token type %s, value %s" % (p.type, p.value),
                                          lineno=p.lineno)
 
+        else:
+            raise error.PySmiParserError("Unexpected end of input", lineno=self.lexer.lexer.lineno)
+
 
 #
 # Parser grammar relaxation follows.
